@@ -27,18 +27,34 @@ CHECKS["C02"] = dict(
     technique="Coq proof (structural induction over field declarations) + model/implementation correspondence in vm_compute")
 
 CHECKS["C19"] = dict(
-    text="PARTIAL. Coq theorems (Props/C19.v, closed under the global context) over a store model with sharing: for every "
+    text="PARTIAL. Coq theorems (Props/C19.v, closed under the global context). (1) Over a store model with sharing: for every "
          "operation whose effect summary is copy-only, the call leaves every caller-reachable object unchanged and no later "
          "sequence of client mutations of arguments or results changes the instance's abstract state (induction over action "
-         "and mutation lists); a constructed witness per unsafe effect kind. The effect kind of each copy/alias site is "
-         "regenerated from the AST of /repo on every run (Gen/AliasSites.v); the effect observed on the real implementation "
-         "(deep snapshots of all arguments, mutation of every returned/argument container, instance/class fingerprints) is "
-         "compared in Coq with the effect predicted from the generated sites, and the property's clauses are evaluated on "
-         "the observations. The proof covers the aliasing logic; the generated sites and the differential cover the code.",
+         "and mutation lists); a constructed witness per unsafe effect kind. (2) Over an executable model of typedpy's "
+         "defensive-copy decisions (Struct/AliasIntake.v: Structure.__setattr__, Field.__set__, the ImmutableMixin copy and the "
+         "wrappers' __init__, parametric in their isinstance tables), for EVERY owner kind, declared field type (any nesting) and "
+         "shape of the argument value (tuples / frozensets / objects / wrappers holding mutable objects included): an "
+         "ImmutableStructure and a field declared immutable share nothing with their arguments when the tables exempt only atomic "
+         "types, every other table entry leaks on a constructed value, a mutable owner shares nothing through a fully typed "
+         "field (induction over the declared type). The effect kind of each copy/alias site AND the isinstance tables / wrapper "
+         "gates are regenerated from the AST of /repo on every run (Gen/AliasSites.v, Gen/AliasTables.v, module constants such as "
+         "_immutable_types resolved); the effect observed on the real implementation (deep snapshots of all arguments, mutation "
+         "of every returned/argument container -- below tuples, frozensets, objects, foreign wrappers and, for immutable owners, "
+         "Structure instances --, instance/class fingerprints) is compared in Coq with the effect predicted from the generated "
+         "facts for every (operation, owner kind, type, value shape), and the property's clauses are evaluated on the observations. "
+         "Streams: random classes (plain / FastSerializable / ImmutableStructure / fields declared immutable), a deterministic "
+         "lattice owner x untyped-position type x python kind of value, wrapper mutators (append, setitem, update, ...), failing "
+         "construct/deserialize, Versioned deserialization, schema/code generation, derivation, convert_dict. The proofs cover the "
+         "aliasing and copy-decision logic; the generated facts and the differential cover the code.",
     design="DESIGN.md §6 C19, §12",
-    note="Trusted: Coq kernel + vm_compute; site recognisers in harness/aliasgen.py (fail closed to UnknownEff); store model "
-         "Struct/Alias.v; harness snapshots/fingerprints; CPython. Untyped Array/Map/Anything content is outside the claim.",
-    technique="Coq proof (noninterference over a store model, induction over mutation histories) + generated effect sites + "
+    note="Trusted: Coq kernel + vm_compute; site / table recognisers in harness/aliasgen.py and harness/genmods/alias_tables.py "
+         "(fail closed to UnknownEff / YUnknownTy); hand-written models Struct/Alias.v and Struct/AliasIntake.v (validated by "
+         "correspondence, not derived); harness snapshots/fingerprints; CPython. The two models are not connected by a theorem "
+         "(the store model has no immutable containers). Untyped Array/Map/Anything content of MUTABLE owners is outside the claim "
+         "(checked against the model, never reported); getters (x.f, x.f[i]) are not operations of the property. Three open known "
+         "findings (trusted deserialization, untyped ImmutableMap, foreign wrapper in an immutable owner).",
+    technique="Coq proof (noninterference over a store model, induction over mutation histories; characterisation of the "
+              "defensive-copy tables by induction over field types) + generated effect sites and isinstance tables + "
               "model/implementation correspondence in vm_compute")
 
 
